@@ -32,6 +32,8 @@ def run(tier, seed, replay=None):
                 nrows += hrows
             if rows:
                 samples.append({'hash,R,owner': rows[len(rows) // 2]})
+        # the specific observations (an owner out of range, a misplaced element) before the generic 'run ended with ...'
+        fails.sort(key=lambda f: str(f.get('what', '')).startswith(('run ended', 'missing')))
         return {'ok': msg is None and not fails, 'msg': msg, 'failures': fails, 'validated': nrows,
                 'evaluations': n + hn, 'nontrivial': nt, 'exhaustive': True,
                 'rule': 'every (communicator size R in %s, array length 0..%d) on the real array under simmpi, all ranks; non-trivial: length not divisible by R or < R; plus owners of %d keys under map/set/disjoint_set on every rank' % (sizes, maxlen, hn),
